@@ -122,6 +122,7 @@ class SymEx:
         self.frames = []       # stack of Func
         self.bv_depth = 0
         self.npaths = 0
+        self.suppress = 0
 
     # ------------------------------------------------------------------ entry
     def run(self, fn, args=None, self_term=None, state=None):
@@ -289,7 +290,12 @@ class SymEx:
         if not self.skip_print_guards or s.orelse:
             return False
         t = s.test
-        ok = (isinstance(t, ast.Attribute) and t.attr == 'PRINT_EVENTS') or (isinstance(t, ast.Name) and t.id == 'PRINT_EVENTS')
+
+        def is_flag(x):
+            return (isinstance(x, ast.Attribute) and x.attr == 'PRINT_EVENTS') or (isinstance(x, ast.Name) and x.id == 'PRINT_EVENTS')
+        ok = is_flag(t)
+        if not ok and isinstance(t, ast.BoolOp) and isinstance(t.op, ast.And) and any(is_flag(v) for v in t.values):
+            ok = not any(isinstance(n, ast.Call) for v in t.values for n in ast.walk(v))
         if not ok:
             return False
         for b in s.body:
@@ -329,6 +335,8 @@ class SymEx:
         if v is not None:
             return [(st, v)]
         h = t[0]
+        if h == 'call' and t[1] == ('ext', 'BOOL') and len(t[2]) == 1:
+            return self.decide(t[2][0], st, node)
         if h == 'not':
             return [(x, not b) for x, b in self.decide(t[1], st, node)]
         if h == 'and':
@@ -449,7 +457,8 @@ class SymEx:
                     if deltas and all(d is not None for d in deltas) and all(T.teq(d, deltas[0]) for d in deltas):
                         y.env[n] = T.t_add(x.env[n], ('sum', lid, deltas[0])) if not (deltas[0] == ZERO) else x.env[n]
                     elif vals and all(v is not None and _rooted(v, ('lc', n, lid)) for v in vals):
-                        y.env[n] = ('accum', lid, x.env[n], tuple(vals))
+                        cmp_ = self._accum_to_comp(lid, x.env[n], paths, n, it, is_for)
+                        y.env[n] = cmp_ if cmp_ is not None else ('accum', lid, x.env[n], tuple(vals))
                     else:
                         y.env[n] = ('havoc', n, lid)
                 else:
@@ -473,7 +482,7 @@ class SymEx:
                 tt = self.ev(s.test, State(dict(b.env), dict(b.heap)))
                 test_t = tt[0][1] if tt else None
             y = y.ev(Ev('loop', id=lid, iter=it if is_for else test_t, is_for=is_for, paths=paths, site=self.site(s), fn=self.fn.qn,
-                        carried=sorted(carried), node=s))
+                        carried=sorted(carried), node=s, pre_env={n: x.env[n] for n in carried}))
             out.append((y, None))
             # exits from inside the body leave the function / raise
             for p in paths:
@@ -496,6 +505,100 @@ class SymEx:
                         nxt.append((z, oc))
                 out = nxt
         return out
+
+    def _accum_to_comp(self, lid, pre, paths, name, it, is_for):
+        """An accumulation loop over an empty container with one append/setitem per (optionally filtered) element is the
+        comprehension it spells: for x in it: if c: out.append(f(x))  ==  [f(x) for x in it if c]."""
+        if not is_for:
+            return None
+        empty = pre in (('list', ()), ('dict', ()), ('set', ())) or (pre[0] == 'call' and pre[1][0] == 'ext' and pre[1][1] in ('LIST', 'DICT', 'SET', 'collections.OrderedDict')
+                                                                    and not pre[2] and not pre[3])
+        if not empty:
+            return None
+        root = ('lc', name, lid)
+        ops = []
+        normal_conds = []
+        for p in paths:
+            if p.outcome == 'raise':
+                continue
+            if p.outcome not in ('fall', 'continue'):
+                return None
+            normal_conds.append({(T.tkey(c), b) for c, b, _ in p.conds})
+            v = p.env.get(name)
+            if v == root:
+                continue
+            if v[0] == 'call' and v[1][0] == 'ext' and v[1][1] in ('APPENDED', 'SETITEM') and v[2][0] == root and not v[3]:
+                ops.append((p, v))
+            else:
+                return None
+        if not ops:
+            return None
+        kinds = {v[1][1] for p, v in ops}
+        if len(kinds) != 1:
+            return None
+        kind = kinds.pop()
+        elts = []
+        for p, v in ops:
+            elt = v[2][1] if kind == 'APPENDED' else ('tuple', (v[2][1], v[2][2]))
+            if len(v[2]) != (2 if kind == 'APPENDED' else 3):
+                return None
+            # conditions shared by every normally completing iteration guard against a refusal, they do not filter elements
+            common = set.intersection(*normal_conds) if normal_conds else set()
+            conds = tuple((c if b else mk_not(c)) for c, b, _ in p.conds if c[0] != 'exc' and (T.tkey(c), b) not in common)
+            elts.append((elt, conds))
+        # several appending paths with the same element: their conditions are alternatives of one filter
+        if len(elts) > 1:
+            if not all(T.teq(e[0], elts[0][0]) for e in elts):
+                return None
+            conds = (('or', tuple(('and', c) if len(c) > 1 else (c[0] if c else TRUE) for _, c in elts)),)
+            elt = elts[0][0]
+        else:
+            elt, conds = elts[0]
+        elem = ('elem', it, lid)
+        idx = set()
+        bare = [False]
+
+        def scan(t, parent_is_sub=False):
+            for sub in T.subterms(t):
+                if sub[0] == 'sub' and sub[1] == elem and sub[2][0] == 'num' and sub[2][1].denominator == 1 and sub[2][1] >= 0:
+                    idx.add(int(sub[2][1]))
+        def count_bare(t):
+            # occurrences of elem not directly under a constant subscript
+            n_all = sum(1 for sub in T.subterms(t) if sub == elem)
+            n_sub = sum(1 for sub in T.subterms(t) if sub[0] == 'sub' and sub[1] == elem and sub[2][0] == 'num')
+            return n_all - n_sub
+        terms = [elt] + list(conds)
+        for t in terms:
+            scan(t)
+        nbare = sum(count_bare(t) for t in terms)
+        base = self.bv_depth
+        if idx and nbare == 0:
+            n = max(idx) + 1
+            bvs = tuple(('bv', base + i) for i in range(n))
+            rep = lambda t: (bvs[int(t[2][1])] if (t[0] == 'sub' and t[1] == elem and t[2][0] == 'num' and t[2][1].denominator == 1 and 0 <= t[2][1] < n) else None)
+        else:
+            bvs = (('bv', base),)
+            rep = lambda t: (bvs[0] if t == elem else None)
+
+        def top_down(t):
+            r = rep(t)
+            if r is not None:
+                return r
+            if not isinstance(t, tuple) or not t or not isinstance(t[0], str):
+                return t
+            if t[0] == 'rat':
+                return T.unrat(t[1].subst(lambda a: T.rat(top_down(a))))
+            if t[0] in ('num', 'str', 'const', 'var', 'ext', 'fn', 'meth', 'mod', 'bv', 'havoc', 'lc'):
+                return t
+            return (t[0],) + tuple(_map_nested(z, top_down) for z in t[1:])
+        elt2 = top_down(elt)
+        conds2 = tuple(top_down(c) for c in conds)
+        if any(sub[0] == 'lc' and sub[-1] == lid for t in (elt2,) + conds2 for sub in T.subterms(t)):
+            return None
+        ckind = {'APPENDED': 'list', 'SETITEM': 'dict'}[kind]
+        if pre == ('set', ()) or (pre[0] == 'call' and pre[1] == ('ext', 'SET')):
+            ckind = 'set'
+        return ('comp', ckind, elt2, ((bvs, it, conds2),))
 
     def _loop_body(self, s, b, is_for):
         sts = [(b, None)]
@@ -633,7 +736,9 @@ class SymEx:
     def binop(self, op, a, b):
         try:
             if isinstance(op, ast.Add):
-                if a[0] in ('str', 'list', 'tuple', 'fmt') or b[0] in ('str', 'list', 'tuple', 'fmt'):
+                if a[0] in ('str', 'fmt') or b[0] in ('str', 'fmt'):
+                    return _concat(a, b)
+                if a[0] in ('list', 'tuple') or b[0] in ('list', 'tuple'):
                     return ('call', ('ext', 'CONCAT'), (a, b), ())
                 return T.t_add(a, b)
             if isinstance(op, ast.Sub):
@@ -652,7 +757,9 @@ class SymEx:
                     return T.unrat(r)
                 return ('pow', a, b)
             if isinstance(op, ast.Mod):
-                if a[0] in ('str', 'fmt'):
+                if a[0] == 'str':
+                    return ('fmt', a, b if b[0] == 'tuple' else ('tuple', (b,)))
+                if a[0] == 'fmt':
                     return ('fmt', a, b)
                 return ('call', ('ext', 'MOD'), (a, b), ())
             if isinstance(op, ast.FloorDiv):
@@ -822,8 +929,13 @@ class SymEx:
             cur = st
             vals = [v.value for v in e.values if isinstance(v, ast.FormattedValue)]
             out = []
+            plain = all(v.format_spec is None and v.conversion == -1 for v in e.values if isinstance(v, ast.FormattedValue))
             for x, vs in self.seq(vals, st):
-                out.append((x, ('fmt', ('str', ''.join(v.value if isinstance(v, ast.Constant) else '{}' for v in e.values)), ('tuple', tuple(vs)))))
+                if plain:
+                    tmpl = ''.join(v.value.replace('%', '%%') if isinstance(v, ast.Constant) else '%s' for v in e.values)
+                else:
+                    tmpl = ''.join(v.value if isinstance(v, ast.Constant) else '{!spec}' for v in e.values)
+                out.append((x, ('fmt', ('str', tmpl), ('tuple', tuple(vs)))))
             return out
         if isinstance(e, ast.FormattedValue):
             return self.ev(e.value, st)
@@ -868,6 +980,11 @@ class SymEx:
                 if l == FALSE and r == TRUE:
                     return mk_not(x[1])
                 return ('ite', x[1], l, r)
+        if o in ('is', 'is not', '==', '!=') and NONE in (a, b):
+            other = b if a == NONE else a
+            if other[0] == 'call' and other[1] == ('ext', 'GET') and len(other[2]) == 2:
+                t = ('cmp', 'in', other[2][1], other[2][0])
+                return mk_not(t) if o in ('is', '==') else t
         if o in ('in', 'not in'):
             # membership: "x in d.keys()" == "x in d"
             if b[0] == 'call' and b[1] == ('meth', 'keys') and len(b[2]) == 1:
@@ -891,6 +1008,11 @@ class SymEx:
             for kk, v in b[1]:
                 if kk == i:
                     return v
+        if b[0] == 'comp' and b[1] == 'dict' and len(b[3]) == 1 and not b[3][0][2] and b[2][0] == 'tuple' and len(b[3][0][0]) == 1 \
+                and b[2][1][0] == b[3][0][0][0]:
+            # {k: f(k) for k in keys}[i]  ==  f(i)   (for i among the keys)
+            bv = b[3][0][0][0]
+            return T.replace(b[2][1][1], lambda t: i if t == bv else None)
         return k
 
     def attr(self, e, st):
@@ -899,6 +1021,7 @@ class SymEx:
             if x.exc is not None:
                 out.append((x, ZERO))
                 continue
+            b = _unget(b)
             k = ('attr', b, e.attr)
             if k in x.heap:
                 out.append((x, x.heap[k]))
@@ -923,7 +1046,7 @@ class SymEx:
                 out.append((x, k))
                 continue
             props = self.M.property_targets(self.fn, e, self.tenv()) if isinstance(e.ctx, ast.Load) else []
-            if len(props) == 1 and self.policy(self.fn, props[0], len(self.frames)):
+            if len(props) == 1 and not self.suppress and self.policy(self.fn, props[0], len(self.frames)):
                 out.extend(self.inline(props[0], {}, b, x, e))
                 continue
             if props:
@@ -933,6 +1056,19 @@ class SymEx:
         return out
 
     def comp(self, e, st):
+        try:
+            return self._comp(e, st)
+        except Undecided as u:
+            if 'forking comprehension' not in str(u) or self.suppress:
+                raise
+        # an element that forks (inlined multi-branch property): keep callees symbolic inside this comprehension
+        self.suppress += 1
+        try:
+            return self._comp(e, st)
+        finally:
+            self.suppress -= 1
+
+    def _comp(self, e, st):
         kind = {ast.ListComp: 'list', ast.SetComp: 'set', ast.GeneratorExp: 'gen', ast.DictComp: 'dict'}[type(e)]
         x = State(dict(st.env), dict(st.heap), (), (), dict(st.decided))
         base = self.bv_depth
@@ -1055,6 +1191,7 @@ class SymEx:
             if x0.exc is not None:
                 out.append((x0, ZERO))
                 continue
+            recv = _unget(recv)
             argn = list(e.args)
             kwn = [k for k in e.keywords]
             for x, vs in self.seq([a.value if isinstance(a, ast.Starred) else a for a in argn] + [k.value for k in kwn], x0):
@@ -1080,6 +1217,15 @@ class SymEx:
                 if g is not None:
                     return self.inline(g, self.bind(g, args, kwargs, skip_self=False), None, st, e)
         targets, how, layer = self.M.resolve_any(fn, e, self.tenv())
+        if not targets and isinstance(f, ast.Name) and f.id in st.env and st.env[f.id][0] == 'attr':
+            # a bound method passed around as a value: getter = self.get_portfolio_total_equity ; getter(pid)
+            bm = st.env[f.id]
+            for fr in reversed(self.frames):
+                if fr.cls is not None and bm[1] in (('var', 'self'), st.env.get('self')):
+                    m = fr.cls.lookup(bm[2])
+                    if m is not None:
+                        targets, how, layer, recv = [m], 'typed', 1, bm[1]
+                        break
         # a receiver whose symbolic value is a constructed object resolves exactly
         if recv is not None and recv[0] in ('new', 'obj'):
             c = self.M.cls(recv[1])
@@ -1096,7 +1242,7 @@ class SymEx:
                          result=None, node=e, recv=None))
             return [(x, ('call', ('fn', c.name), tuple(args), tuple(sorted(kwargs, key=lambda kv: str(kv[0])))))]
         if targets:
-            if len(targets) == 1 and self.policy(fn, targets[0], len(self.frames)):
+            if len(targets) == 1 and not self.suppress and self.policy(fn, targets[0], len(self.frames)):
                 t = targets[0]
                 self_term = recv
                 if how in ('static', 'modfunc', 'func', 'nested') and not t.is_classmethod:
@@ -1128,6 +1274,11 @@ class SymEx:
                 name = T.API_CLASS.get(ext, ext)
                 if name == 'COPY' and len(args) == 1 and not kws:
                     return [(st, args[0])]
+                if ext in ('math.floor', 'math.ceil', 'math.trunc') and len(args) == 1:
+                    # math.floor/ceil/trunc return an int: int(<class>(x))
+                    inner = ('call', ('ext', name), tuple(args), ())
+                    return [(st, ('call', ('ext', 'INT'), (inner,), ()))]
+                args = _canon_reducer_args(('ext', name), args)
                 res = ('call', ('ext', name), tuple(args), kws)
                 x = st.ev(Ev('call', callee=['ext:' + name], args=dict(enumerate(args)), site=site, fn=fn.qn, how=how, layer=0,
                              result=res, node=e, recv=None, kwargs=dict(kwargs)))
@@ -1135,10 +1286,18 @@ class SymEx:
             if recv is not None and recv[0] == 'ext':
                 name = recv[1] + '.' + f.attr
                 name = T.API_CLASS.get(name, name)
+                if name == 'DICT.fromkeys' and 1 <= len(args) <= 2 and not kws:
+                    bv = ('bv', self.bv_depth)
+                    return [(st, ('comp', 'dict', ('tuple', (bv, args[1] if len(args) == 2 else NONE)), (((bv,), args[0], ()),)))]
                 res = ('call', ('ext', name), tuple(args), kws)
                 x = st.ev(Ev('call', callee=['ext:' + name], args=dict(enumerate(args)), site=site, fn=fn.qn, how=how, layer=0,
                              result=res, node=e, recv=None, kwargs=dict(kwargs)))
                 return [(x, res)]
+            if f.attr == 'format' and recv is not None and recv[0] == 'str' and not kws and recv[1].count('{}') == len(args) and '{' not in recv[1].replace('{}', ''):
+                return [(st, ('fmt', ('str', recv[1].replace('%', '%%').replace('{}', '%s')), ('tuple', tuple(args))))]
+            if f.attr == 'get' and len(args) == 1 and not kws and not _is_queue(self.M, fn, f.value, self.tenv()):
+                # d.get(k): the element when present, None otherwise
+                return [(st, ('call', ('ext', 'GET'), (recv, args[0]), ()))]
             res = ('call', ('meth', f.attr), (recv,) + tuple(args), kws)
             x = st.ev(Ev('call', callee=['meth:' + f.attr], args=dict(enumerate(args)), site=site, fn=fn.qn, how=how, layer=0,
                          result=res, node=e, recv=recv, kwargs=dict(kwargs)))
@@ -1152,6 +1311,9 @@ class SymEx:
             return [(x, res)]
         r = self.ev(f, st)
         fv = r[0][1] if len(r) == 1 else ('havoc', 'callee', site)
+        args = _canon_reducer_args(fv, args)
+        if fv == ('ext', 'INT') and len(args) == 1 and not kws and args[0][0] == 'call' and args[0][1] == ('ext', 'INT'):
+            return [(st, args[0])]
         if fv == ('ext', 'FLOAT') and len(args) == 1 and not kws and args[0][0] != 'str':
             return [(st, args[0])]          # float(x) is the identity on numbers (over the reals)
         if fv == ('ext', 'COPY') and len(args) == 1 and not kws:
@@ -1174,6 +1336,51 @@ class SymEx:
 
 
 _BUILTINS = set(dir(__builtins__)) if not isinstance(__builtins__, dict) else set(__builtins__)
+
+
+REDUCERS = {'ANY', 'ALL', 'SUM', 'MAX', 'MIN', 'SORTED', 'SET', 'LIST', 'TUPLE', 'LEN', 'MEAN', 'STD', 'DICT'}
+
+
+def _canon_reducer_args(fv, args):
+    """any([...]) == any(...): a list comprehension consumed by a reducer is its generator; [x for x in it] consumed is `it`"""
+    if fv[0] != 'ext' or fv[1] not in REDUCERS or not args or args[0][0] != 'comp':
+        return args
+    c = args[0]
+    if c[1] == 'list' and fv[1] != 'LEN':
+        c = ('comp', 'gen') + c[2:]
+    if c[1] == 'gen' and len(c[3]) == 1 and not c[3][0][2] and len(c[3][0][0]) == 1 and c[2] == c[3][0][0][0]:
+        return [c[3][0][1]] + list(args[1:])
+    return [c] + list(args[1:])
+
+
+def _map_nested(z, f):
+    if isinstance(z, tuple):
+        if z and isinstance(z[0], str) and z[0] in T._HEADS:
+            return f(z)
+        return tuple(_map_nested(y, f) for y in z)
+    return z
+
+
+def _concat(a, b):
+    """string building: 'W-' + x  ==  'W-%s' % x  ==  f'W-{x}'  (one canonical ('fmt', template, args) form)"""
+    def parts(t):
+        if t[0] == 'str':
+            return t[1].replace('%', '%%'), ()
+        if t[0] == 'fmt' and t[1][0] == 'str' and t[2][0] == 'tuple':
+            return t[1][1], t[2][1]
+        return '%s', (t,)
+    ta, aa = parts(a)
+    tb, ab = parts(b)
+    if not aa and not ab:
+        return ('str', (ta + tb).replace('%%', '%'))
+    return ('fmt', ('str', ta + tb), ('tuple', tuple(aa) + tuple(ab)))
+
+
+def _unget(b):
+    """d.get(k) used as a receiver denotes the element d[k]"""
+    if b is not None and b[0] == 'call' and b[1] == ('ext', 'GET') and len(b[2]) == 2:
+        return ('sub', b[2][0], b[2][1])
+    return b
 
 
 LOCAL_CONTAINER_OPS = ('APPENDED', 'UPDATED', 'EXTENDED', 'SETITEM')
